@@ -10,6 +10,7 @@ import (
 	"go/ast"
 	"go/token"
 	"go/types"
+	"os"
 	"strings"
 )
 
@@ -197,6 +198,10 @@ func e6PosLiteral(p *Prog, r *Report, fn *Func, ip *idxProver, e *ast.CompositeL
 		return
 	}
 	r.Add("E6.coherent-shift", fn.Name, construct, p.Pos(e), OK, "same-line shift of "+exprStr(ls.X)+" by "+dc.String()+" for both column and byte", true)
+	if !dc.isConst() && e6ShiftIsConstantAtCallers(p, fn, dc) {
+		r.Add("E6.byte-length-as-column", fn.Name, "hcl.Pos shifted by "+dc.String(), p.Pos(e), OK, "the shift is a parameter of this unexported helper and every call site passes a constant for it", true)
+		return
+	}
 	if !dc.isConst() {
 		key := "hcl.Pos shifted by " + dc.String()
 		r.Add("E6.byte-length-as-column", fn.Name, key, p.Pos(e), Violated,
@@ -642,4 +647,68 @@ func e6PairedShift(p *Prog, r *Report, fn *Func, ip *idxProver, as *ast.AssignSt
 			"the column is shifted by a byte length ("+dc.String()+"): for multi-byte text the column no longer matches the byte offset", true)
 	}
 	return true, true
+}
+
+// e6ShiftIsConstantAtCallers: every symbol of the shift term is an (unassigned) integer
+// parameter of the unexported, never-escaping function fn, and every call site of fn in the
+// module passes an integer constant for it (a delimiter width decided by the caller).
+func e6ShiftIsConstantAtCallers(p *Prog, fn *Func, d *lin) bool {
+	if fn.Lit != nil || fn.Obj == nil || fn.Obj.Exported() || len(d.t) == 0 {
+		return false
+	}
+	sig, ok := fn.Obj.Type().(*types.Signature)
+	if !ok || sig.Variadic() {
+		return false
+	}
+	idx := map[int]bool{}
+	for sym := range d.t {
+		if os.Getenv("HCLVERIF_E6DEBUG") != "" {
+			fmt.Fprintf(os.Stderr, "E6DEBUG %s sym=%q\n", fn.Name, sym)
+		}
+		found := false
+		for k := 0; k < sig.Params().Len(); k++ {
+			pv := sig.Params().At(k)
+			if (pv.Name() == sym || pathOfObj(pv) == sym || strings.HasPrefix(sym, pv.Name()+"@")) && len(fn.Assignments(pv)) == 0 {
+				if bt, ok := pv.Type().Underlying().(*types.Basic); ok && bt.Info()&types.IsInteger != 0 {
+					idx[k] = true
+					found = true
+				}
+			}
+		}
+		if !found {
+			return false
+		}
+	}
+	nSites, good := 0, true
+	for _, g := range p.Funcs {
+		if g.Body == nil {
+			continue
+		}
+		ginfo := g.Info()
+		ast.Inspect(g.Body, func(n ast.Node) bool {
+			switch y := n.(type) {
+			case *ast.CallExpr:
+				if calleeOf(ginfo, y) == fn.Obj {
+					nSites++
+					for k := range idx {
+						if k >= len(y.Args) {
+							good = false
+							continue
+						}
+						if _, isConst := constInt(ginfo, y.Args[k]); !isConst {
+							good = false
+						}
+					}
+				}
+			case *ast.Ident:
+				if ginfo.Uses[y] == types.Object(fn.Obj) {
+					if cs, isCall := p.Parent(y).(*ast.CallExpr); !isCall || cs.Fun != ast.Expr(y) {
+						good = false
+					}
+				}
+			}
+			return true
+		})
+	}
+	return nSites > 0 && good
 }
